@@ -11,5 +11,8 @@ def genCfg : Cfg :=
     aacSync := IpcHub.Gen.hlsConfDefaultAacSync
     samples := IpcHub.Gen.aacSamplesPerFrame
     getCopies := IpcHub.Gen.memoryGetCopies
-    m3u8Copies := IpcHub.Gen.m3u8Copies }
+    m3u8Copies := IpcHub.Gen.m3u8Copies
+    tokenEscaped := IpcHub.Gen.m3u8TokenEscaped
+    firstFromFrame := IpcHub.Gen.firstSegmentStartsAtFirstFrame
+    minFragment := IpcHub.Gen.hlsFragmentMin }
 end IpcHub.Hls
